@@ -90,6 +90,7 @@ type Record struct {
 	OP    *bool    `json:"op,omitempty"` // MC_OnePass: the model's verdict "one-pass"
 	RSS   []int    `json:"rsS,omitempty"` // MC_ReverseSuffix: bytes of the suffix literal
 	MSZ   *bool    `json:"msz,omitempty"` // MC_ReverseSuffix: the pattern is exactly `.*L`
+	SSL   [][]int  `json:"ssL,omitempty"` // MC_ReverseSuffixSet: bytes of the suffix literals, in order
 	RIP   *AST     `json:"riP,omitempty"` // MC_ReverseInner: the part before the inner literal
 	RIQ   *AST     `json:"riQ,omitempty"` // MC_ReverseInner: the inner literal and what follows it
 	RII   []int    `json:"riI,omitempty"` // MC_ReverseInner: bytes of the inner literal
